@@ -7,6 +7,8 @@ CONSTANTS
   KdfUsesTime = TRUE
   Coordinated = FALSE
   TearDown = FALSE
+  ReHandshakes = 1
+  IgnoreReHandshakeWhileOpen = FALSE
 
 VIEW View
 CONSTRAINT Bound
